@@ -849,13 +849,17 @@ def native_C13(tier, seed):
                 fails.append({"id": "C13-flowjax", "obligation": "flow save/load", "what": "reloaded flowjax flow has a different density", "input": {}})
         except Exception as e:  # noqa: BLE001
             fails.append({"id": "C13-flowjax-raise", "obligation": "flow save/load", "what": f"{type(e).__name__}: {str(e)[:150]}", "input": {}})
-    h = SMCHistory(log_norm_ratio=[0.1, 0.2], beta=[0.5, 1.0], ess=[10.0, 12.0], sample_history=[SMCSamples(rng.normal(size=(3, 2)), log_q=rng.normal(size=3), beta=b, parameters=["mass", "chi"]) for b in (0.0, 0.5, 1.0)])
-    cases += 1
-    with mem() as f:
-        h.save(f, "h")
-        h2 = SMCHistory.load(f, "h")
-    if list(h2.beta) != h.beta or len(h2.sample_history) != 3 or not all(np.array_equal(np.asarray(a.x), np.asarray(b.x)) and a.beta == b.beta for a, b in zip(h.sample_history, h2.sample_history)):
-        fails.append({"id": "C13-history", "obligation": "history save/load", "what": "reloaded SMCHistory differs (series or stored populations)", "input": {}})
+    # stored populations: counts on both sides of every change in the number of digits of the index (1, 10, 11, 100, 101 groups)
+    for npop in (0, 1, 3, 10, 11, 12, 25, 101):
+        betas = [i / max(npop - 1, 1) for i in range(npop)]
+        h = SMCHistory(log_norm_ratio=[0.1 * i for i in range(npop)], beta=list(betas), ess=[10.0 + i for i in range(npop)],
+                       sample_history=[SMCSamples(rng.normal(size=(3, 2)), log_q=rng.normal(size=3), beta=b, parameters=["mass", "chi"]) for b in betas])
+        cases += 1
+        with mem() as f:
+            h.save(f, "h")
+            h2 = SMCHistory.load(f, "h")
+        if list(h2.beta) != h.beta or list(h2.ess) != h.ess or len(h2.sample_history) != npop or not all(np.array_equal(np.asarray(a.x), np.asarray(b.x)) and a.beta == b.beta for a, b in zip(h.sample_history, h2.sample_history)):
+            fails.append({"id": f"C13-history-{npop}", "obligation": "history save/load", "what": f"reloaded SMCHistory with {npop} stored populations differs (series, or stored populations out of order)", "input": {"stored_populations": npop}})
     # ---- configuration: an instance rebuilt from the saved configuration has the same settings
     from aspire import Aspire
     from aspire.utils import resolve_xp
